@@ -2,7 +2,7 @@
 # Model of the transaction pool, the increment validator and the proposer glue (C35)
 
 Mirrors `txnpool/common/transaction_pool.go` (`TXPool`: `AddTxList`, `addEIPTxPool`, `GetTxPool`,
-`selectSortEIP155WithLock`, `CleanCompletedTransactionList`, `RemoveTxsBelowGasPrice`, `Remain`),
+`selectSortEIP155WithLock`, `CleanCompletedTransactionList`, `RemoveTxsBelowGasPrice`, `Remain`, `CleanStaledEIPTx`, `NextNonce`),
 `txnpool/common/tx_list.go` (`txSortedMap`), `validator/increment/increment.go` (`IncrementValidator`),
 the stateful check of `validator/stateful/stateful_validator.go` and the proposer glue of
 `consensus/solo/solo.go:makeBlock` / `consensus/vbft/service.go:validHeight+makeProposal`.
@@ -215,7 +215,9 @@ def selectLoop : Nat → List (List Tx) → List Tx
       | none => []
       | some (t, ls') => t :: selectLoop fuel ls'
 
-def totalLen (ls : List (List Tx)) : Nat := (ls.map List.length).foldl (· + ·) 0
+def totalLen : List (List Tx) → Nat
+  | [] => 0
+  | l :: r => l.length + totalLen r
 
 /-- `selectSortEIP155WithLock`: merge of the per-sender headings by head gas price; entries missing from
 `validTxMap` are skipped ("impossible" branch) -/
@@ -273,6 +275,46 @@ def removeBelow (p : Pool) (gasPrice : Nat) : Option Pool :=
 
 /-- `Remain`: the whole pool is handed back (to be re-verified) -/
 def remain (p : Pool) : List Tx × Pool := (p.valid.map (·.2.tx), { p with valid := [], eip := [] })
+
+def MAX_LIMITATION : Nat := 10000
+def EIPTX_EXPIRATION_BLOCKS : Nat := 50
+
+/-- one iteration of `CleanStaledEIPTx`: a sender whose last EIP-155 commit is 50 blocks old loses its whole list -/
+def staleOne (p : Pool) (height : Nat) (u : Nat × UserInfo) : Pool :=
+  if height ≥ u.2.height + EIPTX_EXPIRATION_BLOCKS then
+    let p1 : Pool := match alookup p.eip u.1 with
+      | some l => { p with valid := eraseAll p.valid (l.map (·.2)), eip := aerase p.eip u.1 }
+      | none => p
+    { p1 with user := aerase p1.user u.1 }
+  else p
+
+def staleLoop (p : Pool) (height : Nat) : List (Nat × UserInfo) → Pool
+  | [] => p
+  | u :: r => staleLoop (staleOne p height u) height r
+
+/-- `CleanStaledEIPTx(height)`: only when more than `MAX_LIMITATION` transactions are pooled -/
+def cleanStaled (p : Pool) (height : Nat) : Pool :=
+  if p.valid.length > MAX_LIMITATION then staleLoop p height p.user else p
+
+def lastNonceOf : List Tx → Nat
+  | [] => 0
+  | [t] => t.nonce
+  | _ :: r => lastNonceOf r
+
+/-- `NextNonce(addr)` (pending nonce for the RPC layer; read only). `none` = nil dereference of
+`userLatestEiptxHeight[addr]`. `heading[len-1].Nonce + 1` is a uint32 addition. -/
+def nextNonce (p : Pool) (addr : Nat) : Option Nat :=
+  match alookup p.eip addr with
+  | none => some 0
+  | some l =>
+    match l.heading with
+    | [] => some 0
+    | t0 :: r =>
+      if t0.nonce > 0 then
+        match alookup p.user addr with
+        | none => none
+        | some u => if t0.nonce ≠ u.nonce then some u.nonce else some ((lastNonceOf (t0 :: r) + 1) % two32)
+      else some ((lastNonceOf (t0 :: r) + 1) % two32)
 
 /-! ### IncrementValidator -/
 structure Val where
@@ -424,6 +466,7 @@ inductive Op
   | propose (ord : Order) (byCount : Bool) (height maxTx : Nat)
   | remain
   | removeBelow (price : Nat)
+  | cleanStaled (height : Nat)
   | valClean
 
 /-- one step of a history; a Go panic (`none`) leaves the state unchanged in `step` and is reported by `stepOut` -/
@@ -442,6 +485,7 @@ def Sys.step (s : Sys) : Op → Sys
   | .removeBelow g => match removeBelow s.pool g with
     | some p => { s with pool := p }
     | none => s
+  | .cleanStaled h => { s with pool := cleanStaled s.pool h }
   | .valClean => { s with val := s.val.clean }
 
 def Sys.run (s : Sys) : List Op → Sys
